@@ -184,9 +184,13 @@ def main(tier):
     sat_shapes = [r for r in results if r['sat']]
     # every sat answer is replayed through the public API before it is reported
     # (witnesses over uninterpreted lerp/easing need not be visible with the real kernels: several shapes are tried)
-    for r in sat_shapes[:60]:
+    # shapes with more keyframes / a start override first: their witnesses are the ones most likely to be visible with the real kernels
+    sat_shapes.sort(key=lambda r: (-r['shape'][1], -int(r['shape'][4]) if len(r['shape']) > 4 else 0))
+    for r in sat_shapes[:80]:
         if len(check.violations) >= 3: break
         confirm(check, r)
+    if check.violations:
+        check.inconclusive = [x for x in check.inconclusive if 'did not reproduce natively' not in x]
     if check.violations:
         check.inconclusive = [x for x in check.inconclusive if 'did not reproduce' not in x]
     ob = Obligation('C01.per-path', [], words='for every path of update() on every shape: position strictly inside a segment => value == LERP(start, end, EASE(easing in force at the start keyframe, (q-a)/(b-a)))')
@@ -210,18 +214,19 @@ def main(tier):
 
 
 def confirm(check, r):
-    mv = next((x for x in r['sat'] if x), None)
-    if mv is None: return
-    case = replay_case(r['shape'], mv)
+    mvs = [x for x in r['sat'] if x][:4]
+    if not mvs: return
+    cases = [replay_case(r['shape'], mv) for mv in mvs]
     try:
-        nat = run_replay([case], 'dev', 'replay_tl')[0]
+        nats = run_replay(cases, 'dev', 'replay_tl')
     except Exception as e:
         check.inconclusive.append(f'replay failed for shape {r["shape"]}: {e}'); return
-    if nat.get('mismatch'):
-        check.report_violation(f'shape_{"_".join(map(str, r["shape"][:2]))}', None,
-                               f'shape {r["shape"]}: {nat.get("detail", "")}', case)
-    else:
-        check.inconclusive.append(f'counterexample for shape {r["shape"]} did not reproduce natively: {nat}')
+    for case, nat in zip(cases, nats):
+        if nat.get('mismatch'):
+            check.report_violation(f'shape_{"_".join(map(str, r["shape"][:2]))}', None,
+                                   f'shape {r["shape"]}: {nat.get("detail", "")}', case)
+            return
+    check.inconclusive.append(f'counterexample for shape {r["shape"]} did not reproduce natively: {nats[0]}')
 
 
 if __name__ == '__main__':
